@@ -1,10 +1,10 @@
 CONSTANTS
   Family = "logic"
   MaxDepth = 2
-  SampleSize = 0
+  SampleSize = 600
   NegUnionFlipsEach = FALSE
-  FalsyObjs = {}
-  OperandTruthFilter = FALSE
+  FalsyObjs = {"o1", "o2", "o3", "o4"}
+  OperandTruthFilter = TRUE
 SPECIFICATION Spec
 INVARIANT EngineSound
 INVARIANT RefSane
